@@ -38,6 +38,22 @@ Inductive axspec :=
 Definition dname_eqb (a b : dname) : bool :=
   match a, b with DStr s, DStr t => String.eqb s t | DNonStr, DNonStr => true | _, _ => false end.
 
+(* list.sort(key=lambda ax: dims.index(ax.name)): a stable insertion sort on the position of the name in dims *)
+Definition dn_index (ds : list dname) (s : string) : nat :=
+  match index_of (dname_eqb (DStr s)) ds with Some i => i | None => 0 end.
+Fixpoint ins_by (key : axis -> nat) (x : axis) (l : list axis) : list axis :=
+  match l with
+  | [] => [x]
+  | y :: t => if key x <=? key y then x :: l else y :: ins_by key x t
+  end.
+Definition sort_by (key : axis -> nat) (l : list axis) : list axis := fold_right (ins_by key) [] l.
+
+(* Axes.from_shape(shape, dims) *)
+Definition from_shape (ds : list dname) (shape : list nat) : res (list axis) :=
+  if negb (List.length ds =? List.length shape) then Err IndexError else
+  let! axs := mapM (fun p => mk_named_axis (fst p) KI (arange_labels (snd p))) (combine ds shape) in
+  append_all [] axs.
+
 Definition init_axes (sp : axspec) (shape : list nat) : res (list axis) :=
   match sp with
   | SLists labs dims =>
@@ -55,16 +71,14 @@ Definition init_axes (sp : axspec) (shape : list nat) : res (list axis) :=
       let! axs := mapM (fun p => mk_named_axis (fst p) (fst (snd p)) (snd (snd p))) l in
       append_all [] axs
   | SAxisObjs l => append_all [] l
+  | SDict [] ds => from_shape ds shape        (* an empty dict: default axes *)
   | SDict l ds =>
       let! axs := mapM (fun p => mk_named_axis (fst p) (fst (snd p)) (snd (snd p))) l in
       let! axs := append_all [] axs in
       (* axes.sort(dims): every axis name must be listed in dims; order of dims *)
       if negb (forallb (fun ax => existsb (dname_eqb (DStr (aname ax))) ds) axs) then Err ValueError
-      else Ok (flat_map (fun d => filter (fun ax => dname_eqb (DStr (aname ax)) d) axs) ds)
-  | SDimsOnly ds =>
-      if negb (List.length ds =? List.length shape) then Err IndexError else
-      let! axs := mapM (fun p => mk_named_axis (fst p) KI (arange_labels (snd p))) (combine ds shape) in
-      append_all [] axs
+      else Ok (sort_by (fun ax => dn_index ds (aname ax)) axs)
+  | SDimsOnly ds => from_shape ds shape
   | SNothing =>
       let! axs := mapM (fun p => mk_named_axis (DStr (default_name (fst p))) KI (arange_labels (snd p)))
                        (combine (seq 0 (List.length shape)) shape) in
